@@ -267,3 +267,13 @@ impl core::fmt::Display for AttributeName {
         f.write_str(AttributeName::STRING_TABLE[*self as usize])
     }
 }
+
+#[cfg(feature = "verif")]
+impl AttributeName {
+    /// verification hook: the complete table of item texts; the index of a text is the value of its item
+    #[doc(hidden)]
+    #[must_use]
+    pub fn verif_string_table() -> &'static [&'static str] {
+        &Self::STRING_TABLE
+    }
+}
